@@ -233,3 +233,14 @@ PROPS["C13"] = dict(
     design_ref="§6 C13",
     scope="all parameter values for the affinity theorem; generated scenarios for execution",
 )
+
+PROPS["C14"] = dict(
+    groups=["coltypes"],
+    lean_props=["SeaQ.Props.C14"],
+    lean_obligations=[],
+    technique="Lean 4 proofs over the MySQL / Postgres type-name tables regenerated from src/backend/{mysql,postgres}/table.rs on every run: every template of every supported ColumnType arm names a type the dialect defines in a form it defines (for all parameter values), parameters appear in the written name as their decimal digits and in declaration order, UNSIGNED follows exactly the unsigned variants, auto-increment is AUTO_INCREMENT / smallserial-serial-bigserial; whole statements are decided by a reference DDL grammar per dialect: the parse tree of every generated schema statement must equal the tree expected from the scenario (each column one type and each specification once, table-level elements, options, ALTER option separators, index / foreign-key / type / extension statements)",
+    level_text="Machine-checked: type mapping obligations over the regenerated tables, lifted to all parameter values (params_in_text). Validated on generated statements: acceptance by the reference DDL grammar and tree equality with the declaration. The grammars and the per-dialect lists of defined types are the trusted specification (no MySQL / Postgres engine in the sandbox). The DDL renderer is not modelled in Lean.",
+    level_note="Trusted: Lean kernel; seaq-translate (syn) for the tables; SeaQ.Props.C14.mysqlDefined / postgresDefined (transcribed from the manuals); harness/src/c14.rs (reference grammar and expected trees) with the reference lexers.",
+    design_ref="§6 C14",
+    scope="all parameter values for the mapping theorems; generated statements for the grammar",
+)
